@@ -6,6 +6,7 @@ import (
 	"io"
 	"sync"
 	"verif/internal/gen"
+	"verif/internal/mon"
 
 	"github.com/ulikunitz/xz"
 	"github.com/ulikunitz/xz/lzma"
@@ -219,6 +220,99 @@ func checkC18(c *ev.Ctx) {
 			c.Sample(map[string]any{"DictCap": dc, "block_header_dict_byte": b[16], "expected": want})
 		}
 		c.Count("block_headers_checked", 1)
+	}
+	// writers whose sink uses the library itself while a Write call is in progress: a second
+	// writer with another capacity emits its own block headers from inside the sink (side
+	// activity), or the sink of one xz writer is another xz writer (xz in xz, small blocks so
+	// that inner headers straddle outer block boundaries).  Every header must carry the code
+	// of its own writer.
+	codeOf := func(dc int) int {
+		k := 0
+		for tab[k] < int64(dc) {
+			k++
+		}
+		return k
+	}
+	for i, pr := range [][2]int{{1 << 20, 4096}, {4096, 1 << 22}, {65537, 8192}, {12288, 1 << 16}} {
+		for mode := 0; mode < 2; mode++ {
+			id := fmt.Sprintf("hdr-reentrant-%d-%d", i, mode)
+			noteCase(id)
+			if !want(c, id) {
+				continue
+			}
+			data := gen.Data(r, "text", 3000)
+			var inner []byte // the stream of the writer with capacity pr[0]
+			var outer bytes.Buffer
+			var werr error
+			if mode == 0 {
+				var other bytes.Buffer
+				wb, err := xz.WriterConfig{DictCap: pr[1], BlockSize: 16}.NewWriter(&other)
+				if err != nil {
+					c.Inconclusive(fmt.Sprintf("NewWriter: %v", err))
+					continue
+				}
+				sink := mon.NewSink()
+				sink.Yield = func() { wb.Write([]byte("0123456789abcdefg")) }
+				wa, err := xz.WriterConfig{DictCap: pr[0], BlockSize: 40}.NewWriter(sink)
+				if err != nil {
+					c.Inconclusive(fmt.Sprintf("NewWriter: %v", err))
+					continue
+				}
+				_, werr = wa.Write(data)
+				if e := wa.Close(); werr == nil {
+					werr = e
+				}
+				wb.Close()
+				inner = sink.Buf
+				outer = other
+			} else {
+				wb, err := xz.WriterConfig{DictCap: pr[1], BlockSize: 16}.NewWriter(&outer)
+				if err != nil {
+					c.Inconclusive(fmt.Sprintf("NewWriter: %v", err))
+					continue
+				}
+				wa, err := xz.WriterConfig{DictCap: pr[0], BlockSize: 40}.NewWriter(wb)
+				if err != nil {
+					c.Inconclusive(fmt.Sprintf("NewWriter: %v", err))
+					continue
+				}
+				_, werr = wa.Write(data)
+				if e := wa.Close(); werr == nil {
+					werr = e
+				}
+				if e := wb.Close(); werr == nil {
+					werr = e
+				}
+				inner, _, _ = ref.DecodeXZ(outer.Bytes(), 0)
+			}
+			c.Eval(fmt.Sprintf("hdr-reentrant-mode%d", mode), true)
+			bad := ""
+			check := func(name string, b []byte, dc int) {
+				_, ss, err := ref.DecodeXZ(b, 0)
+				if err != nil {
+					bad += fmt.Sprintf("%s stream (DictCap %d) is not decodable: %v; ", name, dc, err)
+					return
+				}
+				for _, st := range ss {
+					for bi, bl := range st.Blocks {
+						c.Count("reentrant_block_headers_checked", 1)
+						if int(bl.DictCode) != codeOf(dc) && bad == "" {
+							bad += fmt.Sprintf("%s stream: block %d declares dictionary code %d, the writer's DictCap %d needs %d; ", name, bi, bl.DictCode, dc, codeOf(dc))
+						}
+					}
+				}
+			}
+			if werr != nil {
+				bad = fmt.Sprintf("writer error: %v", werr)
+			} else {
+				check("first", inner, pr[0])
+				check("second", outer.Bytes(), pr[1])
+			}
+			if bad != "" {
+				c.Violation("block-header-dict-byte", map[string]any{"case_id": id, "capacities": pr, "nested": mode == 1,
+					"what": "two xz writers, one active inside the other's sink Write: " + bad})
+			}
+		}
 	}
 	// the capacity is raised on the live writer (xz.Writer embeds its exported configuration)
 	// between two blocks: whatever the writer makes of that, the size a block header declares
